@@ -17,6 +17,7 @@ var EditKinds = []string{
 	"add-property", "remove-property", "toggle-property-required", "schema-constraint", "schema-type", "ref-retarget",
 	"add-response", "remove-response", "response-header", "enum-value", "add-definition", "remove-definition",
 	"param-items-constraint", "schema-description", "header-constraint", "body-required", "response-schema",
+	"param-constraint-multi", "schema-constraint-multi", "numeric-bounds-rewrite",
 }
 
 func pick[T any](t *rapid.T, label string, xs []T) (T, bool) {
@@ -468,6 +469,113 @@ func ApplyEdit(t *rapid.T, label string, doc J, k string) bool {
 			return false
 		}
 		return MutateConstraint(t, label, p.P) != ""
+	case "param-constraint-multi":
+		// several keywords of the same parameter change in one edit
+		p, ok := pick(t, label+"_p", simpleParams(doc))
+		if !ok {
+			return false
+		}
+		n := 0
+		for i := 0; i < 3; i++ {
+			if MutateConstraint(t, fmt.Sprintf("%s_m%d", label, i), p.P) != "" {
+				n++
+			}
+		}
+		return n > 0
+	case "schema-constraint-multi":
+		var cand []SchemaSite
+		for _, s := range SchemaSites(doc, false) {
+			switch s.S["type"] {
+			case "string", "integer", "number", "array":
+				if _, tuple := s.S["items"].(A); !tuple {
+					cand = append(cand, s)
+				}
+			}
+		}
+		s, ok := pick(t, label+"_s", cand)
+		if !ok {
+			return false
+		}
+		n := 0
+		for i := 0; i < 3; i++ {
+			if MutateConstraint(t, fmt.Sprintf("%s_m%d", label, i), s.S) != "" {
+				n++
+			}
+		}
+		return n > 0
+	case "numeric-bounds-rewrite":
+		// the same numeric range written differently or shifted: exclusive <-> inclusive
+		// together with a bound change (x < 100  ->  x <= 99)
+		var cand []J
+		for _, p := range simpleParams(doc) {
+			if p.P["type"] == "integer" || p.P["type"] == "number" {
+				cand = append(cand, p.P)
+			}
+		}
+		for _, s := range SchemaSites(doc, false) {
+			if s.S["type"] == "integer" || s.S["type"] == "number" {
+				cand = append(cand, s.S)
+			}
+		}
+		c, ok := pick(t, label+"_c", cand)
+		if !ok {
+			return false
+		}
+		delete(c, "enum")
+		delete(c, "multipleOf")
+		delete(c, "default")
+		delete(c, "example")
+		for _, side := range []string{"minimum", "maximum"} {
+			ex := "exclusive" + strings.Title(side)
+			switch rapid.IntRange(0, 4).Draw(t, label+"_"+side) {
+			case 0: // leave
+			case 1: // toggle exclusivity only
+				if c[side] != nil {
+					if truthy(c[ex]) {
+						delete(c, ex)
+					} else {
+						c[ex] = true
+					}
+				}
+			case 2: // toggle exclusivity and move the bound
+				if c[side] == nil {
+					if side == "minimum" {
+						c[side] = 0
+					} else {
+						c[side] = 100
+					}
+					c[ex] = true
+				} else {
+					if truthy(c[ex]) {
+						delete(c, ex)
+					} else {
+						c[ex] = true
+					}
+					d := float64(rapid.SampledFrom([]int{-1, 1}).Draw(t, label+"_d"+side))
+					bump(c, side, d)
+				}
+			case 3: // move the bound only
+				if c[side] != nil {
+					d := float64(rapid.SampledFrom([]int{-2, -1, 1, 2}).Draw(t, label+"_d"+side))
+					bump(c, side, d)
+				}
+			case 4: // add or remove the bound
+				if c[side] != nil {
+					delete(c, side)
+					delete(c, ex)
+				} else if side == "minimum" {
+					c[side] = -1000
+				} else {
+					c[side] = 1000
+				}
+			}
+		}
+		mn, okn := num(c["minimum"])
+		mx, okx := num(c["maximum"])
+		if okn && okx && mn+3 > mx {
+			c["maximum"] = mn + 5
+		}
+		return true
 	case "param-items-constraint":
 		var cand []J
 		for _, p := range simpleParams(doc) {
